@@ -1,6 +1,7 @@
 package main
 
 import (
+	"encoding/json"
 	"math/rand"
 
 	"cuelabs.dev/go/oci/ociregistry"
@@ -65,6 +66,12 @@ func randOps(rnd *rand.Rand, cat *Catalog, steps int, profile string, honest boo
 		for i := 0; i < 8; i++ {
 			if u := pickU0(); !retired[u] {
 				return u
+			}
+		}
+		// every draw was a finished session: any session that is not (the reserved names at the end first)
+		for i := len(cat.Uploads) - 1; i >= 0; i-- {
+			if !retired[cat.Uploads[i]] {
+				return cat.Uploads[i]
 			}
 		}
 		return cat.Uploads[len(cat.Uploads)-1]
@@ -219,6 +226,10 @@ func randOps(rnd *rand.Rand, cat *Catalog, steps int, profile string, honest boo
 				mt = "other"
 			case 1:
 				mt = pick([]string{"image", "index", "other2", "other3", "other3"})
+			}
+			if !json.Valid(c.Data) && rnd.Intn(3) == 0 {
+				// bytes that are not JSON, offered as a manifest type the registry reads
+				mt = pick([]string{"image", "index"})
 			}
 			if v, ok := c.As[mt]; ok && rnd.Intn(4) != 0 {
 				for _, b := range v.Blobs {
